@@ -175,8 +175,53 @@ def sweep(k, n_random, seed, budget_s=240):
     return {"graphs": done, "generated": len(graphs), "bad": bad}
 
 
+def replay_resolve_target(w, obligation, expects):
+    """Direct histories for the all-or-nothing clause of Alias.resolve_target: the looked-up member is an already-resolved alias whose own chain is
+    broken (missing target) or cyclic (leads back to the alias being resolved); then generated graphs."""
+    from _griffe.collections import ModulesCollection
+    from _griffe.models import Alias, Attribute, Module
+    problems = []
+    for shape in ("broken", "cyclic", "fine"):
+        coll = ModulesCollection()
+        m = Module("m")
+        coll.set_member("m", m)
+        a = Alias("a", "m.r")
+        m.set_member("a", a)
+        if shape == "broken":
+            u = Alias("u", "missing.x")
+            m.set_member("u", u)
+            r = Alias("r", u)           # resolved link in front of an unresolvable one
+        elif shape == "cyclic":
+            r = Alias("r", a)           # resolved link leading back to the alias being resolved
+        else:
+            x = Attribute("x")
+            m.set_member("x", x)
+            r = Alias("r", x)
+        m.set_member("r", r)
+        try:
+            a.resolve_target()
+            raised = None
+        except (AliasResolutionError, CyclicAliasError) as e:
+            raised = type(e).__name__
+        except BaseException as e:  # noqa: BLE001
+            raised = type(e).__name__
+            problems.append(f"[{shape}] resolve_target raised {raised}")
+        if raised and a._target is not None:
+            problems.append(f"[{shape}] resolve_target raised {raised} but left the target set (a -> m.r stays 'resolved' although resolution failed)")
+        if raised and a._passed_through:
+            problems.append(f"[{shape}] passed-through flag left set after {raised}")
+        if shape == "fine" and (raised or a._target is not r or x.aliases.get("m.a") is not a):
+            problems.append(f"[fine] a -> r -> x: raised={raised}, target set={a._target is r}, listed={x.aliases.get('m.a') is a}")
+    if problems:
+        return {"reproduced": True, "detail": "; ".join(problems), "signature": "resolve_target:" + problems[0]}
+    r = sweep(2, 100, 0, 40)
+    b = [x for x in r["bad"] if not x["root_cause"]]
+    return {"reproduced": bool(b), "detail": (json.dumps(b[0])[:600] if b else f"direct histories and {r['graphs']} generated import graphs: resolve_target is all-or-nothing"),
+            "signature": b[0]["signature"] if b else "ok"}
+
+
 def replay_alias_graphs(w, obligation, expects):
-    r = sweep(3, 300, 0)
+    r = sweep(3, 300, 0, 60)
     b = r["bad"]
     return {"reproduced": bool(b), "detail": (f"{len(b)} of {r['graphs']} generated import graphs violate the statement, e.g. {b[0]}" if b else f"statement holds on {r['graphs']} generated import graphs"),
             "signature": b[0]["signature"] if b else "ok"}
